@@ -149,6 +149,16 @@ def _points(np, rng, kind, n):
         dec = dec0 + rng.uniform(-size, size, n)
         ra = ra0 + rng.uniform(-size, size, n) / max(np.cos(np.radians(dec0)), 0.05)
         return ra % 360, np.clip(dec, -90, 90)
+    if kind.startswith("pole"):
+        # a tight group around the north or south pole (tangent-plane offsets of `size` degrees): all right ascensions occur
+        size = float(kind[4:])
+        x, y = rng.normal(0, size, n), rng.normal(0, size, n)
+        dec = (90 - np.hypot(x, y)) * (1 if rng.random() < 0.5 else -1)
+        return np.degrees(np.arctan2(y, x)) % 360, dec
+    if kind == "split":
+        # used for two catalogues that overlap only partly: a 1-degree field astride the equator or an octant meridian
+        ra0 = float(rng.choice([200.0, 90.0, 180.0, 33.0]))
+        return (ra0 + rng.uniform(-0.5, 0.5, n)) % 360, rng.uniform(-0.5, 0.5, n)
     if kind == "north":
         return rng.uniform(0, 360, n), 90 - np.abs(rng.normal(0, 2.0, n)) * rng.choice([0, 1, 1, 1], n)
     if kind == "south":
@@ -178,10 +188,21 @@ def _layout(np, rng, a):
     return a
 
 
+def _max_depth(radius):
+    """deepest tree for which a cap of this radius is covered by at most a few thousand triangles (the cover is computed for
+    every first-set point; deeper trees only cost time, the statement is the same at every depth)"""
+    import math
+    area = 2 * math.pi * (1 - math.cos(math.radians(min(max(radius, 1e-6), 180.0)))) * (180 / math.pi) ** 2
+    d = 13
+    while d > 1 and area / (41252.96 / (8 * 4 ** d)) > 4000:
+        d -= 1
+    return d
+
+
 def _match_cases(tier, seed):
     import numpy as np
     rng = np.random.default_rng(seed + 31)
-    kinds = ["uniform", "cap30", "cap5", "cap0.5", "cap0.01", "cap0.0001", "north", "south", "seam", "octant"]
+    kinds = ["uniform", "cap30", "cap5", "cap0.5", "cap0.01", "cap0.0001", "north", "south", "seam", "octant", "pole0.05", "pole0.001"]
     reps = 1 if tier == "quick" else 6
     for rep in range(reps):
         for kind in kinds:
@@ -195,15 +216,20 @@ def _match_cases(tier, seed):
                 # duplicates of second-set points and exact copies inside the first set
                 k = min(3, n1)
                 ra1[:k], dec1[:k] = ra2[:k], dec2[:k]
-            scale = {"uniform": 20.0, "north": 3.0, "south": 1.0, "seam": 1.0, "octant": 1.0}.get(kind) or float(kind[3:])
+            scale = {"uniform": 20.0, "north": 3.0, "south": 1.0, "seam": 1.0, "octant": 1.0}.get(kind) or float(kind[4:] if kind.startswith("pole") else kind[3:])
             radii = [0.0, 1e-6, scale * 0.3, scale * rng.uniform(0.01, 1.5), rng.choice([60.0, 90.0, 120.0, 180.0])]
             radii.append(scale * rng.uniform(0.05, 1.0, ra1.size))        # one radius per point
             if tier == "quick":
                 radii = [radii[rep % 2], radii[2 + int(rng.integers(0, 2))], radii[4] if ra2.size * ra1.size < 1500 else radii[3], radii[5]]
+            if not self_match and ra1.size >= 6:
+                # consecutive bit-identical first-set positions whose per-point radius grows and shrinks
+                ra1[3], dec1[3] = ra1[2], dec1[2]
+                ra1[5], dec1[5] = ra1[4], dec1[4]
+                perpoint = radii[-1]
+                perpoint[2], perpoint[3] = scale * 0.05, scale * 1.0
+                perpoint[4], perpoint[5] = scale * 1.0, scale * 0.05
             for radius in radii:
-                depth = int(rng.choice([1, 2, 3, 5, 7, 9, 10, 11, 12, 13]))
-                if np.ndim(radius) == 0 and radius > 20:
-                    depth = min(depth, 7)
+                depth = min(int(rng.choice([1, 2, 3, 5, 7, 9, 10, 11, 12, 13])), _max_depth(float(np.max(radius))))
                 maxmatch = int(rng.choice([-1, 0, 0, 1, 2, 3, 1000]))
                 yield dict(ra1=_layout(np, rng, ra1), dec1=_layout(np, rng, dec1), ra2=_layout(np, rng, ra2), dec2=_layout(np, rng, dec2),
                            radius=radius if np.ndim(radius) == 0 else _layout(np, rng, radius), depth=depth, maxmatch=maxmatch,
@@ -227,8 +253,10 @@ def _dom_match_depths(tier, seed):
         k += 1
         if tier == "quick" and k % 4:
             continue
-        big = np.ndim(c["radius"]) == 0 and c["radius"] > 20
-        depths = [1, 3, 6] if big else [1, 4, 8, 11, 13]
+        dmax = _max_depth(float(np.max(c["radius"])))
+        depths = sorted({min(d, dmax) for d in (1, 4, 8, 11, 13)})
+        if len(depths) < 2:
+            depths = [1, 2]
         yield dict(call=(lambda: None), args=[], ghost=dict(ra1=c["ra1"], dec1=c["dec1"], ra2=c["ra2"], dec2=c["dec2"], radius=c["radius"], depths=depths),
                    key="%s n1=%d n2=%d depths=%s" % (c["kind"], c["ra1"].size, c["ra2"].size, depths))
 
@@ -373,11 +401,7 @@ def _dom_intersect(tier, seed):
     for k in range(ncase):
         ra0, dec0 = centres[k] if k < len(centres) else (float(rng.uniform(0, 360)), float(np.degrees(np.arcsin(rng.uniform(-1, 1)))))
         radius = float(10.0 ** rng.uniform(-4, np.log10(90.0))) if k % 4 else float(rng.choice([20.0, 25.0, 40.0, 60.0, 90.0]))
-        depth = int(rng.integers(1, 13))
-        if radius > 5:
-            depth = min(depth, 6 if tier == "quick" else 7)
-        elif radius > 0.5:
-            depth = min(depth, 9)
+        depth = min(int(rng.integers(1, 13)), _max_depth(radius))
         # probes: inside, around the rim, and outside (up to 3 radii)
         m = 300 if tier == "quick" else 2000
         rr = radius * np.concatenate([np.sqrt(rng.uniform(0, 1, m // 2)), rng.uniform(0.98, 1.02, m // 4), rng.uniform(1, 3, m // 4)])
@@ -396,17 +420,25 @@ def _dom_intersect(tier, seed):
 def _dom_bincount(tier, seed):
     import numpy as np
     rng = np.random.default_rng(seed + 34)
-    kinds = ["uniform", "cap5", "cap0.5", "cap0.01", "north", "seam", "octant"]
+    kinds = ["uniform", "cap5", "cap0.5", "cap0.01", "north", "seam", "octant", "pole0.05", "split"]
     reps = 1 if tier == "quick" else 8
     for rep in range(reps):
         for kind in kinds:
             n1, n2 = int(rng.integers(5, 40)), int(rng.integers(30, 200))
             ra2, dec2 = _points(np, rng, kind, n2)
-            if rng.random() < 0.3:
+            if kind == "split":
+                # the second catalogue lies on one side of the equator only, the first one straddles it
+                keep = dec2 > 0.02
+                ra2, dec2 = ra2[keep], dec2[keep]
+                m1 = max(n1, 30)
+                ra1 = (ra2[0] + rng.uniform(-0.5, 0.5, m1)) % 360          # the same field as the second catalogue
+                dec1 = rng.uniform(-0.5, 0.5, m1)
+                dec1[::2] = -np.abs(dec1[::2]) * 0.5         # every other point just south of the equator
+            elif rng.random() < 0.3:
                 ra1, dec1 = ra2[:n1].copy(), dec2[:n1].copy()
             else:
                 ra1, dec1 = _points(np, rng, kind, n1)
-            size = {"uniform": 30.0, "north": 3.0, "seam": 1.0, "octant": 1.0}.get(kind) or float(kind[3:])
+            size = {"uniform": 30.0, "north": 3.0, "seam": 1.0, "octant": 1.0, "split": 1.0}.get(kind) or float(kind[4:] if kind.startswith("pole") else kind[3:])
             for scale_kind in ("none", "scalar", "array"):
                 if scale_kind == "none":
                     scale, smax = None, 1.0
@@ -416,12 +448,12 @@ def _dom_bincount(tier, seed):
                 else:
                     scale = 10.0 ** rng.uniform(-0.7, 0.7, ra1.size)      # differs from point to point, up and down
                     smax = float(scale.min())
-                rmax = size * rng.uniform(0.2, 1.0) * (1.0 if scale is None else np.radians(1.0) * smax)
+                rmax = size * rng.uniform(0.5 if kind == "split" else 0.2, 1.0) * (1.0 if scale is None else np.radians(1.0) * smax)
                 rmin = rmax * 10.0 ** rng.uniform(-3, -0.5)
                 nbin = int(rng.integers(1, 9))
-                depth = int(rng.integers(1, 13))
-                if size > 5:
-                    depth = min(depth, 7)
+                # the pair counter histograms the ids of the second set over their whole range (8 * 4**depth bins when the set
+                # straddles an octant boundary): depth 9 keeps that at 2e6 bins per call; depths 10..12 in the thorough tier
+                depth = min(int(rng.integers(1, 13)), _max_depth(size), 9 if (tier == "quick" or rng.random() < 0.8) else 12)
                 yield dict(call=(lambda: None), args=[], ghost=dict(ra1=ra1, dec1=dec1, ra2=ra2, dec2=dec2, rmin=float(rmin), rmax=float(rmax), nbin=nbin,
                                                                      scale=scale, depth=depth),
                            key="%s n1=%d n2=%d rmin=%.3g rmax=%.3g nbin=%d scale=%s depth=%d" % (kind, n1, n2, rmin, rmax, nbin, scale_kind, depth))
